@@ -106,7 +106,10 @@ def evalCase (line : String) : String :=
               | .ok [p'] => p'.path == p.path && p'.loc == p.loc
               | _ => false)
             | .error _ => false
-          "{\"p\":" ++ cps p.path ++ ",\"l\":" ++ locJ p.loc ++ ",\"v\":" ++ canon p.inner ++ ",\"rq\":" ++ bstr rq ++ "}") ++ "]}"
+          let rf := match reference d p.path with
+            | some (l, _) => l == p.loc
+            | none => false
+          "{\"p\":" ++ cps p.path ++ ",\"l\":" ++ locJ p.loc ++ ",\"v\":" ++ canon p.inner ++ ",\"rq\":" ++ bstr rq ++ ",\"rf\":" ++ bstr rf ++ "}") ++ "]}"
     let (impl, reUnsupported, implAst) := match parseJsonPath q.toList with
       | .error _ => ("{\"err\":1}", false, none)
       | .ok segs =>
@@ -120,7 +123,7 @@ def evalCase (line : String) : String :=
       let specR' := Spec.query (reEngine true) segs d
       let specUns := (specR.map (·.1)) != (specR'.map (·.1))
       let spec := "{\"ok\":[" ++ ",".intercalate (specR.map fun n =>
-            "{\"p\":" ++ cps (Spec.npath n.1) ++ ",\"l\":" ++ locJ n.1 ++ ",\"v\":" ++ canon n.2 ++ ",\"rq\":true}") ++ "]}"
+            "{\"p\":" ++ cps (Spec.npath n.1) ++ ",\"l\":" ++ locJ n.1 ++ ",\"v\":" ++ canon n.2 ++ ",\"rq\":true,\"rf\":true}") ++ "]}"
       let astAgree := match implAst with
         | some a => ",".intercalate (a.map segJ) == ",".intercalate (segs.map segJ)
         | none => false
